@@ -52,7 +52,8 @@ MatchedBytes(vs) == IF vs = <<>> THEN 0
                     ELSE (IF Head(vs)[1] THEN Head(vs)[2] ELSE 0) + MatchedBytes(Tail(vs))
 RECURSIVE ConsumedBytes(_)
 ConsumedBytes(vs) == IF vs = <<>> THEN 0 ELSE Head(vs)[2] + ConsumedBytes(Tail(vs))
-SharePpm(vs) == IF ConsumedBytes(vs) = 0 THEN 0 ELSE Ppm(100 * MatchedBytes(vs), ConsumedBytes(vs))
+\* (a payload without a single byte - empty files only - has nothing that could fail: the full share)
+SharePpm(vs) == IF ConsumedBytes(vs) = 0 THEN 100000000 ELSE Ppm(100 * MatchedBytes(vs), ConsumedBytes(vs))
 
 Intact(recs, kinds, disk) == \A f \in DOMAIN recs : RangeOK(kinds[f], disk[f], 0, recs[f])
 =============================================================================
